@@ -43,6 +43,9 @@ def observer(got, pred, sp, call, sg, prog, ctx, part):
         bad('LP extraction raises %s' % type(e).__name__)
         return
     part['evaluations'] += 1
+    if sorted(data.variables) != sorted(want_names):
+        bad('a variable of the model has no column in the extracted LP (or a column has no variable)', {'got': list(data.variables), 'expected': want_names})
+        return
     if list(data.variables) != want_names:
         bump(part, 'variable_order_differs_left_to_C16')
         return
@@ -128,7 +131,8 @@ def lpsite(pred):
 
 
 def run(report, tier):
-    r = apirun.run_config(report, 'MC_C05', observer=observer, report_kinds=())
+    r = apirun.run_config(report, 'MC_C05', observer=observer, report_kinds=(),
+                          overrides=None if tier == 'thorough' else {'ObjCands': '<- MC_ObjCandsQ'})
     check_code_table(r.log)
     if tier == 'thorough':
         apirun.run_config(report, 'MC_C05', cfg='MC_C05T', observer=observer, report_kinds=(), tag='T')
